@@ -12,6 +12,7 @@ import (
 	"sort"
 	"strings"
 
+	clientv3 "go.etcd.io/etcd/client/v3"
 	"google.golang.org/protobuf/proto"
 
 	metadatapb "github.com/KafScale/platform/pkg/gen/metadata"
@@ -170,3 +171,14 @@ func VerifPartitionKey(topic string, partition int32) string { return partitionK
 
 // The prefix EtcdStore.deleteTopicOffsets deletes (the format string is inlined there).
 func VerifTopicDeletePrefix(topic string) string { return fmt.Sprintf("/kafscale/topics/%s/", topic) }
+
+// VerifEtcdStoreNoWatch builds an EtcdStore over an existing client without the snapshot
+// watcher goroutine (a harness that replays a broker-side history needs each operation to
+// see exactly the state the previous one left; the watcher's asynchronous refresh is C21's
+// subject).
+func VerifEtcdStoreNoWatch(cli *clientv3.Client, snapshot ClusterMetadata) *EtcdStore {
+	return &EtcdStore{client: cli, metadata: NewInMemoryStore(snapshot), available: 1}
+}
+
+// VerifInner exposes the embedded in-memory store of an EtcdStore (for full-state dumps).
+func VerifInner(s *EtcdStore) *InMemoryStore { return s.metadata }
